@@ -2183,10 +2183,13 @@ static program_t *epilog ()
             }
           else
             {
-              /* the alias keeps its own inherited entry, but it must carry the
-               * modifiers (static, private, ...) of the function as well:
-               * apply_low() tests the flags of the slot it found the function by */
-              FUNCTION_FLAGS (i) |= (FUNCTION_FLAGS (which) & NAME_TYPE_MOD);
+              /* the alias keeps its own inherited entry (so that it can be
+               * compressed away), but it must carry the flags of the function
+               * like every other alias: apply_low() tests the modifiers and
+               * NAME_TRUE_VARARGS of the slot it found the function by, and
+               * local calls / function pointers test NAME_UNDEFINED of the slot
+               * they were compiled to.  (which is inherited here, so is i) */
+              FUNCTION_FLAGS (i) = FUNCTION_FLAGS (which) | NAME_ALIAS;
             }
         }
     }
